@@ -329,7 +329,7 @@ namespace cnl {
                 using traits = operator_overflow_traits<shift_left_op, Lhs, Rhs>;
                 return lhs < 0 ? rhs > 0 ? rhs < traits::positive_digits
                                                  ? (lhs >> (traits::positive_digits - rhs)) != -1
-                                                 : true
+                                                 : (rhs > traits::positive_digits || lhs != -1)
                                          : false
                                : false;
             }
